@@ -277,6 +277,9 @@ pub fn run(ctx: &Ctx, rep: &mut Report) {
         for szx in 2u8..=6 {
             let bs = rb::size(szx);
             let mut lens = vec![0, 1, bs - 1, bs, bs + 1, 2 * bs - 1, 2 * bs, 2 * bs + 1, 3 * bs + 1, 5000];
+            if szx == 6 {
+                lens.extend([70_000, 1_100_000, 2_200_000]); // beyond 64 KiB, 1 MiB and 2 MiB
+            }
             lens.sort();
             lens.dedup();
             for len in lens {
@@ -302,7 +305,7 @@ pub fn run(ctx: &Ctx, rep: &mut Report) {
         ctx.family(
             rep,
             "U2-boundary-lengths-large-blocks",
-            "SZX 2..6 x body lengths {0,1,bs-1,bs,bs+1,2bs-1,2bs,2bs+1,3bs+1,5000} x duplicate vectors {all once, all twice, final twice, last-but-one three times} x budgets {exact+0, +1, 1280} x abandoned predecessor {0,1,4,6 blocks same size; 3 blocks next larger size}",
+            "SZX 2..6 x body lengths {0,1,bs-1,bs,bs+1,2bs-1,2bs,2bs+1,3bs+1,5000; with 1024-byte blocks also 70000, 1.1 M, 2.2 M} x duplicate vectors {all once, all twice, final twice, last-but-one three times} x budgets {exact+0, +1, 1280} x abandoned predecessor {0,1,4,6 blocks same size; 3 blocks next larger size}",
             n,
             true,
             |i, rep| {
@@ -310,6 +313,10 @@ pub fn run(ctx: &Ctx, rep: &mut Report) {
                 let (szx, len, dv) = &table[d[0] as usize];
                 let (slack, abs) = slacks[d[1] as usize];
                 let (pb, bigger) = preds[d[2] as usize];
+                if *len > 5000 && (dv.iter().any(|x| *x > 1) || pb > 0 || d[1] > 0) {
+                    rep.count("skipped-large-body-only-once-without-predecessor");
+                    return;
+                }
                 if bigger && *szx == 6 {
                     rep.count("skipped-no-larger-block-size");
                     return;
